@@ -631,7 +631,7 @@ fn gen_history_pair(rng: &mut Rng, density: f64) -> (JobSpec, JobSpec) {
         j
     };
     let y = yields(rng, density);
-    let which = rng.below(9);
+    let which = rng.below(10);
     let (a, b) = match which {
         0 => {
             // a built-in module's variable assigned through a plain @forward of that module
@@ -682,6 +682,17 @@ fn gen_history_pair(rng: &mut Rng, density: f64) -> (JobSpec, JobSpec) {
             // the same program twice: every diagnostic has to be delivered again
             let t = format!("@function f($x) {{ @warn \"w#{{$x}}\"; @debug \"d#{{$x}}\"; @return $x; }}\n{}a {{ b: f(1) f(1) f(2); }}\n@warn \"top\";\n@warn \"top\";\n", y);
             (mk("pair7:first", vec![], Err(t.clone())), mk("pair7:second", vec![], Err(t)))
+        }
+        9 => {
+            // a compilation that panics (fuel exhaustion, a panicking Logger or Fs: anything the
+            // caller catches with catch_unwind) several hundred user-defined calls deep, then one
+            // that nests a few hundred calls itself: bookkeeping that is restored by plain code
+            // after a call, not by a drop guard, is left behind by the unwinding
+            let f = "@function sum($n) { @if $n <= 0 { @return 0; } @return $n + sum($n - 1); }\n@mixin deep($n) { @if $n > 0 { @include deep($n - 1); } @else { x: y; } }\n";
+            let mut first = mk("pair9:first", vec![], Err(format!("{}{}a {{ b: sum(400); @include deep(300); }}\n", f, y)));
+            first.eval_fuel = *rng.pick(&[200u64, 500, 800, 1300]);
+            let second = mk("pair9:second", vec![], Err(format!("{}{}a {{ b: sum(300); @include deep(300); }}\n", f, y)));
+            (first, second)
         }
         _ => {
             // a failed load of a module, then a successful load of the same path
